@@ -11,6 +11,7 @@ package main
 
 import (
 	"bytes"
+	"encoding/hex"
 	"encoding/json"
 	"fmt"
 	"math/rand"
@@ -36,7 +37,9 @@ func main() {
 	hxlib.Main(&hxlib.Harness{
 		Prop: "C20",
 		Rule: "scenario = 1–32 producer goroutines running generated programs (plain/formatted calls of all 6 severities from 3 origin packages, " +
-			"runs of identical calls, context-tracer submissions) against the real logger in a child process, with concurrent SetLogLevel/SetPkgLevels/UnSetPkgLevels, " +
+			"runs of identical calls, context-tracer submissions; 'mixed' scenarios: one call site reached through a possibly-nil tracer so that a plain line and a " +
+			"tracer submission of the same text/file/line/level stand next to each other in ONE writer batch, in both orders, submissions with equal and different collected lines, " +
+			"the same text from another file / line / level) against the real logger in a child process, with concurrent SetLogLevel/SetPkgLevels/UnSetPkgLevels, " +
 			"slow adapter (buffer overflow), paced or free-running writer, delays injected at hook points, Shutdown at the end or mid-run; " +
 			"non-trivial = more than one goroutine or more than 50 lines and at least one line written; distinct by recorded trace. " +
 			"lv cases: level-filter probes (global/package level × origin × severity) on an in-process logger",
@@ -188,6 +191,8 @@ func genSpec(r *hxlib.Run, rng *rand.Rand, kind string) Spec {
 		maxReps = 120
 		items = (s.Cap - 5000) / 60 / np
 		pSleep, pTr = 0, 0
+	case "mixed":
+		return genMixed(r, rng)
 	case "many":
 		np = 16 + rng.Intn(17)
 		items = 10 + rng.Intn(r.Budget(60, 400))
@@ -230,7 +235,7 @@ func genSpec(r *hxlib.Run, rng *rand.Rand, kind string) Spec {
 				if rng.Intn(5) == 0 {
 					ne = 1
 				}
-				op := Op{Kind: "tr", Org: rng.Intn(3)}
+				op := Op{Kind: "tr", Org: rng.Intn(3), F: rng.Intn(2) == 0}
 				for e := 0; e < ne; e++ {
 					item++
 					op.Entries = append(op.Entries, EntOp{Lvl: 1 + rng.Intn(6), Item: item})
@@ -256,7 +261,7 @@ func genSpec(r *hxlib.Run, rng *rand.Rand, kind string) Spec {
 				}
 				prog = append(prog, op)
 				// twin: the same message again at another severity (another call site): must NOT be merged
-				tw := rng.Intn(12)
+				tw := rng.Intn(15)
 				if light {
 					tw = 99 // the cheap adapter does not look at call sites
 				}
@@ -269,9 +274,295 @@ func genSpec(r *hxlib.Run, rng *rand.Rand, kind string) Spec {
 					tw := op
 					tw.Kind = map[string]string{"log": "logf", "logf": "log"}[op.Kind]
 					prog = append(prog, tw)
+				case 2: // same message, severity and line number from another FILE (the origin packages are copies of each other)
+					tw := op
+					tw.Org = (op.Org + 1 + rng.Intn(2)) % 3
+					prog = append(prog, tw)
+				case 3: // same message from ONE call site at two severities (function value)
+					prog[len(prog)-1].Kind = "dyn"
+					tw := prog[len(prog)-1]
+					tw.Lvl = 1 + (op.Lvl+rng.Intn(5))%6
+					prog = append(prog, tw)
+				case 4: // a longer message that starts with this one, same call site and severity
+					tw := op
+					tw.Item = op.Item + suffixBase
+					prog = append(prog, tw)
 				}
 			}
 		}
+		s.Prods = append(s.Prods, prog)
+	}
+	if !light {
+		addStartFlags(rng, &s)
+	}
+	return s
+}
+
+// genFlagLevel draws a -log / -plog level name: the documented names in any case, and names Start must not
+// accept (ASCII only: the model lower-cases ASCII).
+func genFlagLevel(rng *rand.Rand) string {
+	names := []string{"trace", "debug", "info", "warning", "error", "critical"}
+	n := names[rng.Intn(6)]
+	switch rng.Intn(8) {
+	case 0:
+		return strings.ToUpper(n)
+	case 1:
+		return strings.ToUpper(n[:1]) + n[1:]
+	case 2:
+		b := []byte(n)
+		for i := range b {
+			if rng.Intn(2) == 0 {
+				b[i] -= 32
+			}
+		}
+		return string(b)
+	case 3, 4:
+		return []string{"warn", "verbose", "7", "3", " info", "info ", "none", "tracee", "err", "crit", "all", "✓"}[rng.Intn(12)]
+	}
+	return n
+}
+
+// addStartFlags: in one scenario of three the logger is started with -log and/or -plog; a sweep producer
+// (appended last, run alone and first) then measures the levels in force on the real logger.
+func addStartFlags(rng *rand.Rand, s *Spec) {
+	if rng.Intn(3) != 0 {
+		return
+	}
+	if rng.Intn(3) != 0 {
+		s.FlagLog = genFlagLevel(rng)
+	}
+	if rng.Intn(3) != 0 {
+		var pairs []string
+		for i, n := 0, 1+rng.Intn(5); i < n; i++ {
+			name := []string{"orga", "orgb", "orgc", "zzz", "database", ""}[rng.Intn(6)]
+			switch rng.Intn(12) {
+			case 0:
+				pairs = append(pairs, name) // no level
+			case 1:
+				pairs = append(pairs, name+"="+genFlagLevel(rng)+"="+genFlagLevel(rng))
+			case 2:
+				pairs = append(pairs, "")
+			case 3:
+				pairs = append(pairs, name+"=")
+			default:
+				pairs = append(pairs, name+"="+genFlagLevel(rng))
+			}
+		}
+		s.FlagPkgs = strings.Join(pairs, ",")
+	}
+	var sweep []Op
+	for o := 0; o < 3; o++ {
+		for l := 1; l <= 6; l++ {
+			sweep = append(sweep, Op{Kind: "log", Lvl: l, Org: o, Item: 1 + o*6 + (l - 1), Reps: 1})
+		}
+	}
+	s.Prods = append(s.Prods, sweep)
+	s.Sweep = true
+}
+
+// genMixed draws a scenario about the merge decision of the writer (`logLine.Equal`): what counts as
+// "identical". Every group of calls is a family of lines that share the message text and differ in exactly
+// the things Equal looks at — tracer or not (on either side), file, line, level — and the group is closed by
+// a trigger of the paced writer, so that the whole group is drained as ONE batch with its lines adjacent.
+func genMixed(r *hxlib.Run, rng *rand.Rand) Spec {
+	s := Spec{Seed: rng.Int63(), Glob: 1, Shutdown: "end", Quiesce: true}
+	np := 1
+	if rng.Intn(3) == 0 {
+		np = 2 + rng.Intn(2)
+	}
+	mode := rng.Intn(10)
+	switch {
+	case mode < 7: // paced, every group triggered by its producer
+		s.Paced, s.TriggerUs = true, 0
+	case mode < 8: // paced, periodic trigger: batches cut anywhere
+		s.Paced, s.TriggerUs = true, 500+rng.Intn(3000)
+	default: // free-running writer kept busy by a slow adapter: whatever arrives meanwhile is one batch
+		s.AdapterUs, s.AdapterEv = 100+rng.Intn(400), 1
+	}
+	// the level in force: trace everywhere (AddTracer hands out tracers), or trace only for some origins
+	// (elsewhere AddTracer returns nil and the same call site logs plain lines)
+	switch rng.Intn(4) {
+	case 0:
+		s.Glob = 2 + rng.Intn(2)
+		s.Pkgs = map[string]int{}
+		for _, n := range []string{"orga", "orgb", "orgc"} {
+			if rng.Intn(3) != 0 {
+				s.Pkgs[n] = 1
+			}
+		}
+	case 1:
+		s.Glob = 1 + rng.Intn(2)
+	}
+	if rng.Intn(4) == 0 {
+		s.Cap = 2 + rng.Intn(14)
+	}
+	if rng.Intn(5) == 0 {
+		s.YieldPm, s.YieldUs = rng.Intn(30), rng.Intn(200)
+	}
+	groups := 8 + rng.Intn(r.Budget(30, 60))
+	for g := 0; g < np; g++ {
+		var prog []Op
+		item := 0
+		lvlNow := s.Glob
+		for k := 0; k < groups; k++ {
+			item++
+			fam := item
+			org := rng.Intn(3)
+			lvl := 1 + rng.Intn(6)
+			if rng.Intn(4) != 0 && lvl < 3 {
+				lvl = 3 + rng.Intn(4)
+			}
+			reps := func() int {
+				if rng.Intn(3) == 0 {
+					return 2 + rng.Intn(3)
+				}
+				return 1
+			}
+			ents := func(n int) []EntOp { // n fresh collected lines
+				var es []EntOp
+				for i := 0; i < n; i++ {
+					item++
+					es = append(es, EntOp{Lvl: 1 + rng.Intn(6), Item: item})
+				}
+				return es
+			}
+			plain := Op{Kind: "via", Nil: true, Lvl: lvl, Org: org, Item: fam, Reps: 1}
+			sub := Op{Kind: "via", Lvl: lvl, Org: org, Item: fam, Reps: 1}
+			var grp []Op
+			switch pat := rng.Intn(14); pat {
+			case 0: // plain line, then a submission whose main line is identical to it
+				p := plain
+				p.Reps = reps()
+				sb := sub
+				sb.Entries = ents(rng.Intn(4))
+				grp = []Op{p, sb}
+			case 1: // the other order
+				sb := sub
+				sb.Entries = ents(rng.Intn(4))
+				p := plain
+				p.Reps = reps()
+				grp = []Op{sb, p}
+			case 2: // submission between runs of the plain line
+				p1, p2 := plain, plain
+				p1.Reps, p2.Reps = reps(), reps()
+				sb := sub
+				sb.Entries = ents(rng.Intn(3))
+				grp = []Op{p1, sb, p2}
+			case 3: // submissions with identical main line and EQUAL collected lines, several times
+				sb := sub
+				sb.Entries = ents(rng.Intn(4))
+				sb.Reps = 2 + rng.Intn(3)
+				grp = []Op{sb}
+			case 4: // submissions with identical main line and DIFFERENT collected lines
+				a, b := sub, sub
+				a.Entries, b.Entries = ents(rng.Intn(3)), ents(1+rng.Intn(4))
+				grp = []Op{a, b}
+				if rng.Intn(2) == 0 {
+					grp = append(grp, a)
+				}
+			case 5: // a submission with many collected lines, some of them identical to each other and to the main line
+				sb := sub
+				sb.Entries = ents(2 + rng.Intn(6))
+				sb.Entries = append(sb.Entries, EntOp{Lvl: lvl, Item: fam})
+				if rng.Intn(2) == 0 {
+					sb.Entries = append(sb.Entries, sb.Entries[0])
+				}
+				grp = []Op{sb}
+				if rng.Intn(2) == 0 {
+					p := plain
+					grp = append([]Op{p}, grp...)
+				}
+			case 6: // same text, same file and line, other level (function value), plain lines
+				a := Op{Kind: "dyn", Lvl: lvl, Org: org, Item: fam, Reps: reps()}
+				b := a
+				b.Lvl = 1 + (lvl+rng.Intn(5))%6
+				grp = []Op{a, b}
+				if rng.Intn(2) == 0 {
+					grp = append(grp, a)
+				}
+			case 7: // same text, same file and line, other level through the tracer call site
+				a, b := plain, plain
+				b.Lvl = 1 + (lvl+rng.Intn(5))%6
+				a.Reps = reps()
+				grp = []Op{a, b, a}
+			case 8: // same text, level and line number from another file
+				a := Op{Kind: "log", Lvl: lvl, Org: org, Item: fam, Reps: reps()}
+				b := a
+				b.Org = (org + 1 + rng.Intn(2)) % 3
+				grp = []Op{a, b}
+				if rng.Intn(2) == 0 {
+					a.Kind, b.Kind = "dyn", "dyn"
+					grp = []Op{a, b, a}
+				}
+			case 9: // same text and level from another line of the same file
+				a := Op{Kind: "log", Lvl: lvl, Org: org, Item: fam, Reps: reps()}
+				b := a
+				b.Kind = []string{"logf", "dyn"}[rng.Intn(2)]
+				c := plain
+				grp = []Op{a, b, c}
+				rng.Shuffle(len(grp), func(i, j int) { grp[i], grp[j] = grp[j], grp[i] })
+			case 10: // two texts of which one is a proper prefix of the other, same call site and level
+				a, b := plain, plain
+				b.Item = fam + suffixBase*(1+rng.Intn(3))
+				a.Reps = reps()
+				grp = []Op{a, b, a}
+				if rng.Intn(2) == 0 {
+					grp = []Op{b, a, b}
+				}
+			case 11: // plain line, other line in between, then the submission: adjacent only in text
+				item++
+				mid := Op{Kind: "via", Nil: true, Lvl: lvl, Org: org, Item: item, Reps: 1}
+				sb := sub
+				sb.Entries = ents(rng.Intn(3))
+				grp = []Op{plain, mid, sb, mid, plain}
+			case 12: // a level change between two uses of the call site: AddTracer returns nil before, a tracer after (or the reverse)
+				if np == 1 && s.Pkgs == nil {
+					a, b := sub, sub
+					a.Entries = ents(rng.Intn(3))
+					b.Entries = a.Entries
+					other := 2 + rng.Intn(2)
+					if lvlNow != 1 {
+						other = 1
+					}
+					grp = []Op{a, {Kind: "lvl", Lvl: other}, b}
+					lvlNow = other
+					if lvlNow != 1 && rng.Intn(3) != 0 {
+						grp = append(grp, Op{Kind: "lvl", Lvl: 1})
+						lvlNow = 1
+					}
+					break
+				}
+				fallthrough
+			default: // anything of the above mixed freely
+				n := 2 + rng.Intn(5)
+				for i := 0; i < n; i++ {
+					switch rng.Intn(5) {
+					case 0, 1:
+						p := plain
+						p.Reps = reps()
+						grp = append(grp, p)
+					case 2:
+						sb := sub
+						sb.Entries = ents(rng.Intn(3))
+						grp = append(grp, sb)
+					case 3:
+						grp = append(grp, Op{Kind: "dyn", Lvl: lvl, Org: org, Item: fam, Reps: reps()})
+					default:
+						p := plain
+						p.Org = rng.Intn(3)
+						grp = append(grp, p)
+					}
+				}
+			}
+			prog = append(prog, grp...)
+			if rng.Intn(8) != 0 {
+				prog = append(prog, Op{Kind: "trig"})
+			}
+			if rng.Intn(10) == 0 {
+				prog = append(prog, Op{Kind: "sleep", Us: rng.Intn(300)})
+			}
+		}
+		prog = append(prog, Op{Kind: "trig"})
 		s.Prods = append(s.Prods, prog)
 	}
 	return s
@@ -359,12 +650,26 @@ func generate(r *hxlib.Run, emit func(hxlib.Case)) {
 	if len(lv) > 0 {
 		emit(hxlib.Case{Lines: lv, Kind: "filter-probe", NonTrivial: true})
 	}
+	// (1b) ParseLevel / Severity.Name on the real package against the regenerated tables
+	{
+		var pl []string
+		for i := 0; i < r.Budget(300, 3000); i++ {
+			pl = append(pl, "pl "+hexOrDash(genFlagLevel(rng)))
+			if i%10 == 0 {
+				pl = append(pl, fmt.Sprintf("nm %d", rng.Intn(9)))
+			}
+		}
+		pl = append(pl, "pl -")
+		for i := 0; i < len(pl); i += 60 {
+			emit(hxlib.Case{Lines: pl[i:min(i+60, len(pl))], Kind: "level-names", NonTrivial: true})
+		}
+	}
 	// (2) malformed / out-of-protocol lines: the driver must reject, never default
-	emit(hxlib.Case{Lines: []string{"lv x 1 - 0 3", "lv 3 1 0=x 0 3", "w bogus", "p 0 1 enq ret", "p 0 1 line won ret", "item 0 1 3 0 p 9:1*1", "out 1:2", "frobnicate"}, Kind: "malformed"})
+	emit(hxlib.Case{Lines: []string{"lv x 1 - 0 3", "lv 3 1 0=x 0 3", "w bogus", "p 0 1 enq ret", "p 0 1 line won ret", "item 0 1 3 0 p 9:1*1", "out 1:2", "frobnicate", "pl zz", "nm x", "start - - 3 0"}, Kind: "malformed"})
 	emit(hxlib.Case{Lines: []string{"w token token"}, Kind: "malformed"})
-	emit(hxlib.Case{Lines: []string{"w token unset slot W:1:3:1:0:0", "p 0 1 line enq won tokFull ret", "p 0 1 line enq won ret"}, Kind: "malformed"})
+	emit(hxlib.Case{Lines: []string{"w token unset slot W:1:3:1:10:0:0", "p 0 1 line enq won tokFull ret", "p 0 1 line enq won ret"}, Kind: "malformed"})
 	// (3) scenarios on the real logger, child process each
-	kinds := []string{"basic", "dups", "overflow", "burst", "paced", "paced-notrigger", "paced-flood", "levels", "mid", "tracer", "yield", "many", "smallcap", "smallcap", "contention"}
+	kinds := []string{"basic", "dups", "overflow", "burst", "paced", "paced-notrigger", "paced-flood", "levels", "mid", "tracer", "yield", "many", "smallcap", "smallcap", "contention", "mixed", "mixed"}
 	n := r.Budget(300, 1900)
 	type job struct {
 		kind string
@@ -469,6 +774,9 @@ type runRec struct {
 	quies  string
 	counts map[string]int
 	bad    string
+
+	prevDeq []string
+	start   []string // "start <log> <plog> <pre-cfg> <thr0> <thr1> <thr2> <glob>"
 }
 
 func atoi(s string) int { n, _ := strconv.Atoi(s); return n }
@@ -570,6 +878,32 @@ func parseRun(lines []string) *runRec {
 				if k != "W" && k != "deq" {
 					rr.counts["writer:"+k]++
 				}
+				// which neighbours did the merge decision see inside one writeLoop round?
+				switch k {
+				case "W":
+				case "deq":
+					p := strings.Split(t, ":") // deq:id:msg:lvl:file:line:tr
+					if len(p) == 7 {
+						if q := rr.prevDeq; q != nil {
+							same := func(i int) bool { return p[i] == q[i] }
+							switch {
+							case same(2) && same(3) && same(4) && same(5):
+								rr.counts["batch-neighbours:identical-but-"+map[string]string{"00": "nothing(plain,plain)", "01": "tracer(plain→tracer)", "10": "tracer(tracer→plain)", "11": "nothing(tracer,tracer)"}[q[6]+p[6]]]++
+							case same(2) && same(4) && same(5):
+								rr.counts["batch-neighbours:identical-but-level"]++
+							case same(2) && same(3) && same(5):
+								rr.counts["batch-neighbours:identical-but-file"]++
+							case same(2) && same(3) && same(4):
+								rr.counts["batch-neighbours:identical-but-line"]++
+							case same(3) && same(4) && same(5) && atoi(p[2])%suffixBase == atoi(q[2])%suffixBase:
+								rr.counts["batch-neighbours:same-site-level-text-prefix"]++
+							}
+						}
+						rr.prevDeq = p
+					}
+				default:
+					rr.prevDeq = nil
+				}
 			}
 		case "meta":
 			for _, kv := range f[1:] {
@@ -580,6 +914,11 @@ func parseRun(lines []string) *runRec {
 				} else {
 					rr.meta[p[0]] = atoi(p[1])
 				}
+			}
+		case "start":
+			if len(f) == 10 {
+				rr.start = f
+				rr.counts["start:flags:"+map[bool]string{true: "log", false: "nolog"}[f[1] != "-"]+"+"+map[bool]string{true: "plog", false: "noplog"}[f[2] != "-"]]++
 			}
 		case "childfail":
 			rr.bad = l
@@ -675,49 +1014,117 @@ func (rr *runRec) verdict() string {
 			return fmt.Sprintf("fail trace g%d i%d", o.gid, o.item)
 		}
 	}
+	// every tracer submission on its own: the submissions that MUST arrive (stable configuration, completed
+	// before Shutdown was requested) are, in program order and each with exactly its collected lines, among
+	// the tracer lines the adapter received from that goroutine — never counted as a repetition of another line
+	expanded := make([][]outw, rr.np)
 	for g := 0; g < rr.np; g++ {
-		var got []outw
 		for _, o := range rr.outs {
 			if o.gid == g {
 				for k := 0; k <= o.dups; k++ {
-					got = append(got, o)
+					expanded[g] = append(expanded[g], o)
 				}
 			}
 		}
+	}
+	for g := 0; g < rr.np; g++ {
+		pos := 0
+		got := expanded[g]
 		for _, it := range rr.items[g] {
-			c := 0
-			for c < len(got) && got[c].item == it.item {
-				c++
+			if it.kind != "t" {
+				continue
 			}
-			for _, o := range got[:c] {
-				ok := true
-				switch it.kind {
-				case "p":
-					ok = !o.tracer
-				case "t":
-					ok = o.tracer && eqInts(o.entries, it.entries)
+			lo, _ := rr.bounds(it)
+			for k := 0; k < lo; k++ {
+				for pos < len(got) && !(got[pos].tracer && got[pos].item == it.item && eqInts(got[pos].entries, it.entries)) {
+					pos++
 				}
-				if !ok {
-					return fmt.Sprintf("fail trace g%d i%d", g, it.item)
+				if pos == len(got) {
+					return fmt.Sprintf("fail tracer-lost g%d i%d", g, it.item)
 				}
+				pos++
 			}
-			lo, hi := rr.bounds(it)
-			if c < lo {
-				return fmt.Sprintf("fail lost g%d i%d", g, it.item)
-			}
-			if c > hi {
-				if hi == 0 {
-					return fmt.Sprintf("fail filtered g%d i%d", g, it.item)
-				}
-				return fmt.Sprintf("fail duplicated g%d i%d", g, it.item)
-			}
-			got = got[c:]
 		}
-		if len(got) > 0 {
-			return fmt.Sprintf("fail unexpected g%d i%d", g, got[0].item)
+	}
+	// the whole statement per goroutine: its part of the expanded output can be cut into consecutive blocks,
+	// one per item in program order, block i made of lo…hi lines of item i in the item's form
+	for g := 0; g < rr.np; g++ {
+		if v := rr.greedy(g, expanded[g]); v != "pass" && !rr.conforms(g, expanded[g]) {
+			return v
 		}
 	}
 	return "pass"
+}
+
+// matches: can this output line belong to the block of the item (same identity, prescribed form)?
+func (it item) matches(o outw) bool {
+	if o.item != it.item {
+		return false
+	}
+	switch it.kind {
+	case "p":
+		return !o.tracer
+	case "t":
+		return o.tracer && eqInts(o.entries, it.entries)
+	}
+	return true
+}
+
+// greedy walks the items, every item taking as many lines as it can; it names the first item where that fails.
+func (rr *runRec) greedy(g int, got []outw) string {
+	for _, it := range rr.items[g] {
+		c := 0
+		for c < len(got) && it.matches(got[c]) {
+			c++
+		}
+		lo, hi := rr.bounds(it)
+		if c < lo {
+			if c < len(got) && got[c].item == it.item {
+				return fmt.Sprintf("fail trace g%d i%d", g, it.item)
+			}
+			return fmt.Sprintf("fail lost g%d i%d", g, it.item)
+		}
+		if c > hi {
+			if hi == 0 {
+				return fmt.Sprintf("fail filtered g%d i%d", g, it.item)
+			}
+			return fmt.Sprintf("fail duplicated g%d i%d", g, it.item)
+		}
+		got = got[c:]
+	}
+	if len(got) > 0 {
+		return fmt.Sprintf("fail unexpected g%d i%d", g, got[0].item)
+	}
+	return "pass"
+}
+
+// conforms decides exactly whether SOME cutting into blocks exists (the greedy walk is not exact when an
+// optional or disabled item stands between two items of identical lines: A B A with B absent arrives as A A).
+func (rr *runRec) conforms(g int, got []outw) bool {
+	cur := []int{0} // positions the items so far can have consumed, ascending
+	for _, it := range rr.items[g] {
+		lo, hi := rr.bounds(it)
+		seen := map[int]bool{}
+		var next []int
+		for _, p := range cur {
+			run := 0
+			for run < hi && p+run < len(got) && it.matches(got[p+run]) {
+				run++
+			}
+			for k := lo; k <= run; k++ {
+				if !seen[p+k] {
+					seen[p+k] = true
+					next = append(next, p+k)
+				}
+			}
+		}
+		if len(next) == 0 {
+			return false
+		}
+		sort.Ints(next)
+		cur = next
+	}
+	return cur[len(cur)-1] == len(got)
 }
 
 func monitor(c hxlib.Case, outs []string) (vs []hxlib.Violation) {
@@ -725,9 +1132,45 @@ func monitor(c hxlib.Case, outs []string) (vs []hxlib.Violation) {
 		return nil
 	}
 	switch strings.Fields(c.Lines[0])[0] {
+	case "pl", "nm":
+		// the documented names, read by the harness itself
+		for i, l := range c.Lines {
+			f := strings.Fields(l)
+			if len(f) != 2 || i >= len(outs) {
+				continue
+			}
+			want := ""
+			switch f[0] {
+			case "pl":
+				b, err := hex.DecodeString(f[1])
+				if err != nil && f[1] != "-" {
+					continue
+				}
+				want = fmt.Sprintf("n=%d", levelNames[strings.ToLower(string(b))])
+			case "nm":
+				want = "s=none"
+				for k, v := range levelNames {
+					if strconv.Itoa(v) == f[1] {
+						want = "s=" + k
+					}
+				}
+			}
+			if outs[i] != want {
+				vs = append(vs, hxlib.Violation{Sig: "C20:level-names", What: fmt.Sprintf("level name table: %s gives %s, documented: %s", l, outs[i], want), Lines: []string{l}, Output: []string{outs[i]}})
+			}
+		}
 	case "scenario":
 		rr := parseRun(c.Lines)
 		v := rr.verdict()
+		if v == "pass" && rr.start != nil {
+			// the levels in force after Start, measured on the real logger, against the harness' reading of the flags
+			c0 := rr.cfgs[0]
+			clamp := func(x int) int { return max(1, min(7, x)) }
+			want := fmt.Sprintf("%d %d %d %d", clamp(inForce(c0, 0)), clamp(inForce(c0, 1)), clamp(inForce(c0, 2)), c0.Glob)
+			if got := strings.Join(rr.start[6:10], " "); got != want {
+				v = "fail start-levels measured=" + strings.ReplaceAll(got, " ", ",") + " expected=" + strings.ReplaceAll(want, " ", ",")
+			}
+		}
 		if v != "pass" {
 			f := strings.Fields(v)
 			keep := c.Lines
@@ -777,7 +1220,11 @@ func explain(cls string) string {
 	case "unexpected":
 		return "the adapter received a line nobody logged at that position (reordering or invention)"
 	case "trace":
-		return "a tracer submission did not carry exactly its collected lines"
+		return "a tracer submission did not carry exactly its collected lines, or was written with a repetition count (another line counted as its repetition)"
+	case "start-levels":
+		return "the levels in force after Start (lowest severity emitted per origin, GetLogLevel) are not what the -log / -plog flags and the levels set before Start prescribe"
+	case "tracer-lost":
+		return "a context-tracer submission that had to be written did not reach the adapter, in program order, as a line of its own with its collected lines (swallowed as a repetition of another line, dropped, or written out of order)"
 	case "quiesce-timeout":
 		return "enqueued lines were not handed to the adapter within 20 s although the writer was free to run (lost wake-up)"
 	case "shutdown-hang":
@@ -824,6 +1271,32 @@ func (e *execT) Do(line string) string {
 		return parseRun(e.lines).verdict()
 	case "lv":
 		return probe(f)
+	case "pl": // the real ParseLevel
+		if len(f) != 2 {
+			return "bad-op"
+		}
+		str := ""
+		if f[1] != "-" {
+			b, err := hex.DecodeString(f[1])
+			if err != nil {
+				return "bad-op"
+			}
+			str = string(b)
+		}
+		return fmt.Sprintf("n=%d", log.ParseLevel(str))
+	case "nm": // the real Severity.Name
+		n, err := strconv.Atoi(f[1])
+		if len(f) != 2 || err != nil {
+			return "bad-op"
+		}
+		return "s=" + log.Severity(n).Name()
+	case "start":
+		// recorded in the child: the levels in force after the real Start read the flags (sweep over
+		// origins × severities, GetLogLevel)
+		if len(f) != 10 {
+			return "bad-op"
+		}
+		return "thr " + strings.Join(f[6:10], " ")
 	}
 	return "bad-op"
 }
@@ -853,7 +1326,7 @@ func (e *execT) wellFormed(f []string) bool {
 var malformed = map[string]string{
 	"w bogus":                        "reject 0 bad-token",
 	"w token token":                  "reject 1 not-enabled",
-	"w token unset slot W:1:3:1:0:0": "reject 3 write-unpredicted",
+	"w token unset slot W:1:3:1:10:0:0": "reject 3 write-unpredicted",
 	"p 0 1 enq ret":                  "reject 0 no-line",
 	"p 0 1 line won ret":             "reject 1 not-enabled",
 	"p 0 1 line enq won tokFull ret": "reject 3 token-dropped",
